@@ -286,4 +286,41 @@ example (e : Endian) : SetOK e { code := FIELD_DESTINATION, ty := .basic .str, v
   refine ⟨trivial, ⟨by decide, by decide, by decide⟩, by decide, by unfold MAX_VALUE_DEPTH; omega, trivial, rfl, by decide,
     fun _ => (Props.C16.validateUtf8_iff _).1 (by decide +kernel), ⟨(fun h => by cases h), (fun h => by cases h)⟩⟩
 
+/-! ### non-vacuity: a concrete well-formed message and a concrete admissible sequence of edits -/
+
+open Dbus.Proofs.Wire in
+/-- a method return (REPLY_SERIAL 9, serial 1, no body) -/
+def exampleReturn : Msg :=
+  { endian := Endian.little, mtype := 2, flags := 0, version := 1, serial := 1,
+    fields := [{ code := 5, ty := .basic .u32, val := .fixed .u32 9 }],
+    bodyTypes := [], body := [] }
+
+
+open Dbus.Proofs.Wire in
+theorem exampleReturn_wf : WFMsg 4096 0 exampleReturn := by
+  refine { mtype_ne := by decide, version_eq := rfl, serial_ne := by decide, header_wf := ?_, fields_ok := by decide, mandatory := by decide,
+           body_types := rfl, body_wf := trivial, falen_le := ?_, blen_le := ?_, total_le := ?_, fds_ok := by decide }
+  · simp [exampleReturn, headerValues, headerTypes, WFFields, WFVal, WFElems, fieldVal, encodeBody, BTy.isFixed, BTy.fixedSize, BTy.size, Ty.isFixed,
+      MAX_VALUE_DEPTH, MAX_ARRAY_LENGTH, Ty.WF, Ty.DepthLax, Ty.maxRun, Ty.structDepth, Ty.dictDepth, MAX_TYPE_DEPTH,
+      encodeList, encode, Dbus.Proofs.Wire.encNat_length, Ty.print, BTy.code, pad, padLen, BTy.align, Ty.align, Endian.toByte]
+  · simp [exampleReturn, fieldsLen, fieldVal, encodeList, encode, Dbus.Proofs.Wire.encNat_length, Ty.print, BTy.code, pad, padLen, BTy.align, Ty.align, BTy.size, BTy.fixedSize]
+  · simp [exampleReturn, encodeBody, encodeList]
+  · simp [exampleReturn, fieldsLen, fieldVal, encodeBody, align8, encodeList, encode, Dbus.Proofs.Wire.encNat_length, Ty.print, BTy.code, pad, padLen, BTy.align, Ty.align, BTy.size, BTy.fixedSize]
+
+
+theorem dest_setok (e : Endian) : SetOK e { code := FIELD_DESTINATION, ty := .basic .str, val := .str .str [0x61, 0x2e, 0x62] } := by
+  refine ⟨by decide, by decide, by decide, ⟨by decide, fun _ => ⟨.str, rfl, rfl, by decide⟩⟩, ?_⟩
+  unfold FieldWF fieldVal
+  simp only [WFVal, WFFields, Ty.WF, Ty.DepthLax]
+  refine ⟨by simp, by unfold MAX_VALUE_DEPTH; omega, ⟨trivial, rfl, by decide, by simp⟩, ?_, trivial⟩
+  refine ⟨trivial, ⟨by decide, by decide, by decide⟩, by decide, by unfold MAX_VALUE_DEPTH; omega, trivial, rfl, by decide,
+    fun _ => (Props.C16.validateUtf8_iff _).1 (by decide +kernel), ⟨(fun h => by cases h), (fun h => by cases h)⟩⟩
+
+/-- non-vacuity of `edits_keep_valid`: on a method return, set the destination, then strip unknown fields, then give it serial 5 -/
+example : WFMsg 4096 0 ([EditOp.set { code := FIELD_DESTINATION, ty := .basic .str, val := .str .str [0x61, 0x2e, 0x62] }, .removeUnknown,
+                         .setSerial 5].foldl applyEdit exampleReturn) := by
+  refine edits_keep_valid 4096 0 _ exampleReturn exampleReturn_wf ⟨⟨dest_setok _, ?_⟩, trivial, ⟨by decide, by decide⟩, trivial⟩
+  simp [SizesOK, exampleReturn, setFieldList, FIELD_DESTINATION, fieldsLen, fieldVal, encodeBody, align8, encodeList, encode, Dbus.Proofs.Wire.encNat_length, Ty.print, BTy.code, pad, padLen,
+    BTy.align, Ty.align, BTy.size, BTy.fixedSize, MAX_ARRAY_LENGTH]
+
 end Dbus.Props.C12
